@@ -59,6 +59,7 @@ class Engine:
         self.cur_st = None
         self.cur_state_for_truth = None
         self.used_defs = set()
+        self.callees = set()         # contracts applied at call sites / lemmas used: the verification cone
         self.axioms_used = {}
         self._set_cache = {}        # name -> definitional axiom of a spec-level function symbol that was used
 
